@@ -54,7 +54,7 @@ func sel(p, n string) ast.Expr {
 	return &ast.SelectorExpr{X: id(p), Sel: id(n)}
 }
 func call(f ast.Expr, args ...ast.Expr) *ast.CallExpr { return &ast.CallExpr{Fun: f, Args: args} }
-func strlit(s string) ast.Expr                      { return &ast.BasicLit{Kind: token.STRING, Value: strconv.Quote(s)} }
+func strlit(s string) ast.Expr                        { return &ast.BasicLit{Kind: token.STRING, Value: strconv.Quote(s)} }
 
 func isConstLike(e ast.Expr) bool {
 	switch v := e.(type) {
